@@ -1,7 +1,13 @@
 #!/bin/bash
-# Builds the harness offline from files on disk and self-tests the executor/explorer.
+# Builds the harness (three runtime flavours) offline from files on disk, self-tests the
+# executor/explorer and binds the runtime shims to the real runtimes.
 set -eu
 cd /verif/mc
 export CARGO_NET_OFFLINE=true
-cargo build --release --offline 2>&1 | tail -3
+CARGO_TARGET_DIR=/verif/.target cargo build --release --offline --no-default-features --features rt-tokio 2>&1 | tail -2
+CARGO_TARGET_DIR=/verif/.target-async cargo build --release --offline --no-default-features --features rt-async 2>&1 | tail -2
+CARGO_TARGET_DIR=/verif/.target-smol cargo build --release --offline --no-default-features --features rt-smol 2>&1 | tail -2
 /verif/.target/release/mc selftest
+/verif/.target/release/mc conformance | tail -1
+/verif/.target-async/release/mc conformance | tail -1
+/verif/.target-smol/release/mc conformance | tail -1
